@@ -15,6 +15,8 @@ pub struct Script {
     pub off: usize,
     /// segment indices before which one read fails with ErrorKind::Interrupted (nothing is consumed)
     pub intr: Vec<usize>,
+    /// segment indices before which one read fails with ErrorKind::TimedOut (nothing is consumed; std's loops do not retry it)
+    pub fail: Vec<usize>,
 }
 impl Read for Script {
     fn read(&mut self, buf: &mut [u8]) -> std::io::Result<usize> {
@@ -29,6 +31,10 @@ impl Read for Script {
             if let Some(p) = self.intr.iter().position(|&k| k == self.i) {
                 self.intr.remove(p);
                 return Err(std::io::Error::new(std::io::ErrorKind::Interrupted, "interrupted"));
+            }
+            if let Some(p) = self.fail.iter().position(|&k| k == self.i) {
+                self.fail.remove(p);
+                return Err(std::io::Error::new(std::io::ErrorKind::TimedOut, "timed out"));
             }
         }
         let s = &self.segs[self.i][self.off..];
@@ -46,7 +52,10 @@ pub fn run(case: &str) -> String {
     // a segment written `!<hex>`: the read that would deliver it fails once with Interrupted first
     let toks: Vec<&str> = if f[2] == "-" { vec![] } else { f[2].split(',').collect() };
     let intr: Vec<usize> = toks.iter().enumerate().filter(|(_, t)| t.starts_with('!')).map(|(i, _)| i).collect();
-    let segs: Vec<Vec<u8>> = toks.iter().map(|t| unhex(t.trim_start_matches('!'))).collect();
+    // a segment written `^<hex>`: the read that would deliver it fails once with TimedOut first (a caller that swallows the
+    // error and goes on calling: modes R / B continue after it)
+    let fail: Vec<usize> = toks.iter().enumerate().filter(|(_, t)| t.starts_with('^')).map(|(i, _)| i).collect();
+    let segs: Vec<Vec<u8>> = toks.iter().map(|t| unhex(t.trim_start_matches(|c| c == '!' || c == '^'))).collect();
     let mode = &f[3][..1];
     // sizes are run-length encoded: `k*count`
     let mut sizes: Vec<usize> = Vec::new();
@@ -58,7 +67,7 @@ pub fn run(case: &str) -> String {
     }
     let kind = f[0].to_string();
     let r = guarded(move || {
-        let script = Script { segs, i: 0, off: 0, intr };
+        let script = Script { segs, i: 0, off: 0, intr, fail };
         let mut rd = if let Some(n) = kind.strip_prefix('F') {
             BodyReader::new_fixed(&leftover, script, n.parse().unwrap())
         } else if kind == "C" {
@@ -87,7 +96,7 @@ pub fn run(case: &str) -> String {
                     Ok(0) => { status = "EOF"; break; }
                     Ok(n) => out.extend_from_slice(&buf[..n]),
                     // an interrupted read delivers nothing; the caller goes on with its next read
-                    Err(e) if e.kind() == std::io::ErrorKind::Interrupted => {}
+                    Err(e) if e.kind() == std::io::ErrorKind::Interrupted || e.kind() == std::io::ErrorKind::TimedOut => {}
                     // a fixed-length body that was cut short: asked again, the reader must not report a normal end
                     Err(_) => { status = if fixed_kind && matches!(rd.read(&mut buf[..16]), Ok(0)) { "ERREOF" } else { "ERR" }; break; }
                 }
@@ -95,7 +104,7 @@ pub fn run(case: &str) -> String {
                 let n = match rd.fill_buf() {
                     Ok(a) if a.is_empty() => { status = "EOF"; break; }
                     Ok(a) => { let n = k.min(a.len()); out.extend_from_slice(&a[..n]); n }
-                    Err(e) if e.kind() == std::io::ErrorKind::Interrupted => 0,
+                    Err(e) if e.kind() == std::io::ErrorKind::Interrupted || e.kind() == std::io::ErrorKind::TimedOut => 0,
                     Err(_) => { status = if fixed_kind && matches!(rd.fill_buf(), Ok(a) if a.is_empty()) { "ERREOF" } else { "ERR" }; break; }
                 };
                 rd.consume(n);
@@ -228,6 +237,23 @@ pub fn gen(ctx: &Ctx) {
         let r = run(&case);
         let st = r.rsplit(' ').next().unwrap_or("?").to_string();
         out.emit(&case, &r, &format!("interrupted/{}/{}/{st}", &kind[..1], &mode[..1]), !r.starts_with("- "));
+    }
+    // a stream whose reads time out now and then (not retried by std: inside the chunked framing the bytes consumed so far are
+    // lost), under a caller that swallows the error and goes on reading: call by call against Model/BodyFail.v
+    for i in 0..(if ctx.thorough { 4000 } else { 400 }) {
+        let len = match rng.below(6) { 0 => 1, 1 => rng.range(4000, 6000) as usize, _ => rng.range(2, 120) as usize };
+        let p = payload(&mut rng, len);
+        let (kind, mut d) = if i % 3 == 0 { (format!("F{}", p.len()), p.clone()) } else { ("C".to_string(), encode_chunked(&mut rng, &p)) };
+        if rng.chance(1, 3) { d.extend(b"GET / HTTP/1.1\r\n\r\n"); }
+        let (lo, segs) = split_segs(&mut rng, &d);
+        if segs.is_empty() { continue; }
+        let marks: Vec<u8> = (0..segs.len()).map(|j| if rng.chance(1, 4) || j == segs.len() / 2 { b'^' } else if rng.chance(1, 8) { b'!' } else { b' ' }).collect();
+        let nint = marks.iter().filter(|m| **m != b' ').count();
+        let mode = if i % 2 == 0 { format!("R{}", sizes(&mut rng, len + nint)) } else { format!("B{}", sizes(&mut rng, len + nint)) };
+        let case = format!("{} {} {} {}", kind, hex(&lo), segs.iter().zip(&marks).map(|(s, m)| format!("{}{}", if *m == b' ' { String::new() } else { (*m as char).to_string() }, hex(s))).collect::<Vec<_>>().join(","), mode);
+        let r = run(&case);
+        let st = r.rsplit(' ').next().unwrap_or("?").to_string();
+        out.emit(&case, &r, &format!("timed-out/{}/{}/{st}", &kind[..1], &mode[..1]), !r.starts_with("- "));
     }
     if ctx.thorough {
         for _ in 0..6 {
